@@ -36,4 +36,136 @@ pub mod parser {
     include!("harness.rs");
 }
 
+/// C06-U6: where an escape error inside a string / char literal or an f-string text part is reported
+pub mod escape_unit {
+    #[path = "/repo/src/parser/meta.rs"]
+    pub mod meta;
+    use meta::{Meta, Span, Spans};
+    use rustc_literal_escaper::EscapeError;
+    use std::ops::Range;
+
+    /// stand-in for the dependency (assumed contract, see unit.toml)
+    pub mod rustc_literal_escaper {
+        use std::ops::Range;
+        #[derive(Debug, Clone, Copy, PartialEq, Eq)]
+        pub enum EscapeError {
+            InvalidEscape,
+            LoneSlash,
+            ZeroChars,
+            MoreThanOneChar,
+        }
+        impl EscapeError {
+            pub fn is_fatal(&self) -> bool {
+                true
+            }
+        }
+        fn simple(c: u8) -> Option<char> {
+            match c {
+                b'n' => Some('\n'),
+                b'r' => Some('\r'),
+                b't' => Some('\t'),
+                b'0' => Some('\0'),
+                b'\\' => Some('\\'),
+                b'\'' => Some('\''),
+                b'"' => Some('"'),
+                _ => None,
+            }
+        }
+        fn char_len(b: u8) -> usize {
+            if b < 0x80 { 1 } else if b < 0xE0 { 2 } else if b < 0xF0 { 3 } else { 4 }
+        }
+        pub fn unescape_str(s: &str, mut callback: impl FnMut(Range<usize>, Result<char, EscapeError>)) {
+            let b = s.as_bytes();
+            let mut i = 0;
+            while i < b.len() {
+                if b[i] == b'\\' {
+                    if i + 1 >= b.len() {
+                        callback(i..i + 1, Err(EscapeError::LoneSlash));
+                        i += 1;
+                    } else {
+                        let n = char_len(b[i + 1]);
+                        match simple(b[i + 1]) {
+                            Some(c) => callback(i..i + 2, Ok(c)),
+                            None => callback(i..i + 1 + n, Err(EscapeError::InvalidEscape)),
+                        }
+                        i += 1 + n;
+                    }
+                } else {
+                    let n = char_len(b[i]);
+                    let c = if n == 1 { b[i] as char } else { '\u{fffd}' };
+                    callback(i..i + n, Ok(c));
+                    i += n;
+                }
+            }
+        }
+        pub fn unescape_char(s: &str) -> Result<char, EscapeError> {
+            let b = s.as_bytes();
+            if b.is_empty() {
+                return Err(EscapeError::ZeroChars);
+            }
+            if b[0] == b'\\' {
+                if b.len() == 2 {
+                    return simple(b[1]).ok_or(EscapeError::InvalidEscape);
+                }
+                return Err(EscapeError::InvalidEscape);
+            }
+            if char_len(b[0]) == b.len() {
+                Ok(if b.len() == 1 { b[0] as char } else { '\u{fffd}' })
+            } else {
+                Err(EscapeError::MoreThanOneChar)
+            }
+        }
+    }
+
+    #[derive(Debug)]
+    pub struct ParseError {
+        pub location: Span,
+    }
+    impl ParseError {
+        pub(super) fn escape(_escape_error: &EscapeError, span: Span) -> Self {
+            ParseError { location: span }
+        }
+    }
+    pub type ParseResult<T> = Result<T, Box<ParseError>>;
+
+    #[derive(Debug, PartialEq)]
+    pub enum FStringPart {
+        String(String),
+    }
+    #[derive(Debug, PartialEq)]
+    pub enum Literal {
+        String(String),
+        Char(char),
+    }
+
+    /*@FN_UNESCAPE_CHAR@*/
+
+    /*@FN_UNESCAPE_STR@*/
+
+    pub struct Parser<'spans> {
+        pub file: usize,
+        pub spans: &'spans mut Spans,
+    }
+
+    impl Parser<'_> {
+        /// the `if !s.is_empty() { .. }` block of Parser::f_string (verbatim)
+        fn text_part(&mut self, s: &str, span: Range<usize>, parts: &mut Vec<Meta<FStringPart>>) -> ParseResult<()> {
+            /*@TEXT_PART_BLOCK@*/
+            Ok(())
+        }
+        /// the arm `Token::String(s) => BODY` of Parser::simple_literal (verbatim body)
+        fn string_arm(&mut self, s: &str, span: Span) -> ParseResult<Literal> {
+            let literal = /*@ARM_LIT_STRING@*/;
+            Ok(literal)
+        }
+        /// the arm `Token::Char(s) => BODY` of Parser::simple_literal (verbatim body)
+        fn char_arm(&mut self, s: &str, span: Span) -> ParseResult<Literal> {
+            let literal = /*@ARM_LIT_CHAR@*/;
+            Ok(literal)
+        }
+    }
+
+    include!("harness_escape.rs");
+}
+
 fn main() {}
